@@ -280,6 +280,7 @@ Record mode_obs := {
 
 Record phase_inv := {
   pi_name : string;
+  pi_in_help : bool;                        (* the help has a phase of that name *)
   pi_has_dict : bool;                       (* the program has a parser dictionary for the phase *)
   pi_dict : list (string * string);         (* (dictionary key, instruction_name() of the value's documentation) *)
   pi_accepted : list string;                (* candidates the running program does not call unknown *)
@@ -337,7 +338,7 @@ Definition app_of (i : inventory) : app_help := {|
   ah_entities := map (fun e => (ei_type e, ei_help_struct e)) (inv_entities i);
   ah_phases := map (fun p => {| sh_name := pi_name p;
                                 sh_instructions := if pi_has_help_instr p then Some (pi_help_keys p) else None |})
-                   (inv_phases i);
+                   (filter pi_in_help (inv_phases i));
   ah_suite_sections := map (fun s => {| sh_name := si_name s;
                                         sh_instructions := if si_has_help_instr s then Some (si_help_keys s) else None |})
                            (inv_suite_sections i) |}.
@@ -350,7 +351,8 @@ Definition find_suite_section (i : inventory) (name : string) : option suite_inv
 (** what the model says the parser of a case phase / suite section accepts, from the observed dictionaries *)
 Definition model_accepts_case (i : inventory) (phase name : string) : option bool :=
   match find_phase i phase with
-  | Some p => if pi_has_dict p then Some (parser_accepts (obs_dict (pi_dict p)) name) else None
+  | Some p => if pi_has_dict p then Some (parser_accepts (obs_dict (pi_dict p)) name)
+              else Some false   (* a name the help gives a phase that the parser does not have: nothing is accepted there *)
   | None => None
   end.
 
